@@ -455,13 +455,15 @@ class ExcelCompiler:
 
             # reset the node + its dependencies
             if not self.cycles:
-                self._reset(cell_or_range)
+                self._reset(cell_or_range, force=True)
 
             # set the value
             cell_or_range.value = value
 
-    def _reset(self, cell):
-        if cell.needs_calc:
+    def _reset(self, cell, force=False):
+        if cell.needs_calc and not force:
+            # (a cell which is set to empty has no value, but its dependants
+            # still need to be reset)
             return
         self.log.info(f"Resetting {cell.address}")
         cell.value = None
